@@ -37,8 +37,14 @@ func setProcessed(s *stack.Snapshot) {
 		for i := range g.Stack.Calls {
 			a := &g.Stack.Calls[i].Args
 			a.Processed = nil
-			for k := range a.Values {
-				a.Processed = append(a.Processed, "T("+a.Values[k].String()+")")
+			for k := 0; k < len(a.Values); k++ {
+				// a string takes two words, a slice three: the texts are fewer than the values
+				txt := "T(" + a.Values[k].String()
+				for extra := int(a.Values[k].Value % 3); extra > 0 && k+1 < len(a.Values); extra-- {
+					k++
+					txt += " " + a.Values[k].String()
+				}
+				a.Processed = append(a.Processed, txt+")")
 			}
 		}
 	}
